@@ -129,6 +129,34 @@ fn names_preserved(ctx: &mut Ctx, prop: &str, xot: &Xot, target: Node, orig: &AN
         return Err(());
     }
     ctx.count("emitted_names_resolve_back");
+    // "serialisation either fails with an error or produces text": also when the text cannot be delivered because the
+    // writer runs out of room - then it fails with an error
+    if prop == "C10" && text.len() >= 2 && (text.len() + orig.count()) % 7 == 0 {
+        let room = (text.len() * 3 / 5).min(text.len() - 1);
+        let r = guard(|| {
+            let mut fw = FailingWriter::new(room);
+            xot.write(target, &mut fw).is_ok()
+        });
+        match r {
+            Ok(false) => ctx.count("failing_writer_reported_as_error"),
+            Ok(true) => {
+                ctx.violation(
+                    "the writer failed and write() returned Ok",
+                    format!("{}/failing-writer/reported-ok", prop),
+                    J::obj().set("tree", orig.to_json()).set("text", J::s(trunc(&text, 600))).set("room", J::i(room as u64)),
+                );
+                return Err(());
+            }
+            Err(p) => {
+                ctx.violation(
+                    "write() panicked when its writer failed",
+                    format!("{}/failing-writer/panic/{}", prop, p.sig()),
+                    J::obj().set("tree", orig.to_json()).set("text", J::s(trunc(&text, 600))).set("room", J::i(room as u64)).set("panic", J::s(p.short())),
+                );
+                return Err(());
+            }
+        }
+    }
     Ok(true)
 }
 
